@@ -42,6 +42,7 @@ namespace Srtla.SysDir
 open Srtla Srtla.Gen Srtla.Conn Srtla.Select Srtla.Rtt Srtla.Link Srtla.Sys Srtla.SysInv Scalar
 
 variable {F : Type} [Scalar F]
+variable {fa : List (Nat × Nat)}
 
 /-! ## 1. The repertoire -/
 
@@ -309,7 +310,7 @@ variable {now : Nat} {classic : Bool} {A : Op → Prop}
 
 theorem fwdLink_run {l a : FLink F} (h : LinkRun now classic A l a) (hq : A .queue) (ht : A .take) (hm : A .mark)
     (pkt : Link.Bytes) (seq : Option Nat) (fn : List Nat) (hs : SeqOk seq) :
-    LinkRun now classic A l (Hk.fwdLink a pkt seq now fn).1 := by
+    LinkRun now classic A l (Hk.fwdLink fa a pkt seq now fn).1 := by
   have h1 : LinkRun now classic A l (a.queueDataPacket pkt seq now).1 := .queue pkt seq hq hs h
   unfold Hk.fwdLink
   split
@@ -331,7 +332,7 @@ theorem forwardVia_pw (hq : A .queue) (ht : A .take) (hm : A .mark) (s : Sys F) 
 
 theorem probeLink_run {l a : FLink F} (h : LinkRun now classic A l a) (hq : A .queue) (ht : A .take) (hm : A .mark)
     (hp : A .probeDue) (pkt : Link.Bytes) (seq : Option Nat) (fn : List Nat) (hs : SeqOk seq) :
-    LinkRun now classic A l (Hk.probeLink a pkt seq now fn).1 := by
+    LinkRun now classic A l (Hk.probeLink fa a pkt seq now fn).1 := by
   have h1 : LinkRun now classic A l a.stallProbeDue.1 := .probeDue hp h
   unfold Hk.probeLink
   split
@@ -340,7 +341,7 @@ theorem probeLink_run {l a : FLink F} (h : LinkRun now classic A l a) (hq : A .q
 
 theorem stallProbesGo_pw (hq : A .queue) (ht : A .take) (hm : A .mark) (hp : A .probeDue) (pkt : Sys.Bytes)
     (seq : Option Nat) (sel : Nat) (hs : SeqOk seq) (ls : List (FLink F)) (i : Nat) (fn : List Nat) :
-    Hk.PW (LinkRun now classic A) ls (stallProbesGo pkt seq now sel ls i fn).1 := by
+    Hk.PW (LinkRun now classic A) ls (stallProbesGo fa pkt seq now sel ls i fn).1 := by
   induction ls generalizing i fn with
   | nil => simp only [stallProbesGo]; exact .nil
   | cons l rest ih =>
@@ -350,7 +351,7 @@ theorem stallProbesGo_pw (hq : A .queue) (ht : A .take) (hm : A .mark) (hp : A .
     · exact .cons (probeLink_run (.refl l) hq ht hm hp pkt seq fn hs) (ih _ _)
 
 theorem flushGo_pw (ht : A .take) (ls : List (FLink F)) (fn : List Nat) :
-    Hk.PW (LinkRun now classic A) ls (flushGo now ls fn).1 := by
+    Hk.PW (LinkRun now classic A) ls (flushGo fa now ls fn).1 := by
   induction ls generalizing fn with
   | nil => simp only [flushGo]; exact .nil
   | cons l rest ih =>
@@ -813,6 +814,7 @@ def evOps (s : Sys F) : Ev → Nat → Op → Prop
   | .setCfg _, _, _ => False
   | .crit _, _, _ => False
   | .failNext _, _, _ => False
+  | .failAfter _ _, _, _ => False
   | .failBind _, _, _ => False
   | .stamp idx _ _ _ _, j, op => op = .stamp ∧ j = idx
   | .syncTimeout, _, op => op = .syncTimeout
@@ -841,6 +843,7 @@ theorem step_run (s : Sys F) (e : Ev) (hnr : e.isReload = false) :
   | setCfg cfg => exact ⟨rfl, fun j l hl => ⟨l, hl, .refl l⟩⟩
   | crit d => exact ⟨rfl, fun j l hl => ⟨l, hl, .refl l⟩⟩
   | failNext cid => exact ⟨rfl, fun j l hl => ⟨l, hl, .refl l⟩⟩
+  | failAfter cid kfa => exact ⟨rfl, fun j l hl => ⟨l, hl, .refl l⟩⟩
   | failBind cid => exact ⟨rfl, fun j l hl => ⟨l, hl, .refl l⟩⟩
   | stamp idx weak ld ccb cct =>
     refine ⟨Hk.stampLink_length _ _ _ _ _ _, fun j l hl => ?_⟩
